@@ -120,6 +120,10 @@ pub fn run_case_with(i: u64, rng: &mut Rng, rep: &mut Report, verbose: bool, for
         spec: gen::gen_search(rng, i),
     };
     let final_extra_ctl = rng.bool();
+    // result codes per page: a server may cut a paged search short (size/time/admin limit) or report a
+    // non-zero code on any page; the cookie alone decides whether there is another page
+    let page_rc: Vec<u32> = (0..pages.len()).map(|k| if rng.chance(1, if k + 1 == pages.len() { 5 } else { 12 }) { *rng.pick(&[3u32, 4, 11, 10, 53]) } else { 0 }).collect();
+    let page_rc2 = page_rc.clone();
     let mut srng = rng.fork();
     let rt = runtime(rng.next());
     let pages2 = pages.clone();
@@ -176,7 +180,7 @@ pub fn run_case_with(i: u64, rng: &mut Rng, rep: &mut Report, verbose: bool, for
                             ctls.push(RespCtl { oid: "1.2.3.4.6".into(), crit: CritEnc::Absent, val: None });
                         }
                         let text = format!("page:{}", page_ix.unwrap());
-                        bytes.extend_from_slice(&ber::encode_min(&resp_node(m.id, &Resp::Done(Res::ok(&text)), Some(&ctls))));
+                        bytes.extend_from_slice(&ber::encode_min(&resp_node(m.id, &Resp::Done(Res::code(page_rc2.get(page_ix.unwrap()).copied().unwrap_or(0), &text)), Some(&ctls))));
                     }
                     None => bytes.extend_from_slice(&ber::encode_min(&resp_node(m.id, &Resp::Done(Res::code(2, "bad page")), None))),
                 }
@@ -345,7 +349,7 @@ pub fn run_case_with(i: u64, rng: &mut Rng, rep: &mut Report, verbose: bool, for
                 rep.violation("C16:final-result-still-carries-the-paging-control", format!("{:?}", trunc(&res.ctrls)), replay.clone());
             }
             let want_text = format!("page:{}", pages.len() - 1);
-            if res.rc != 0 || res.text != want_text {
+            if res.rc != page_rc.last().copied().unwrap_or(0) || res.text != want_text {
                 rep.violation("C16:final-result-is-not-the-last-page's-result", format!("rc {} text {:?} expected {:?}", res.rc, res.text, want_text), replay.clone());
             }
             if final_extra_ctl && !res.ctrls.iter().any(|c| c.oid == "1.2.3.4.5") {
@@ -372,6 +376,9 @@ pub fn run_case_with(i: u64, rng: &mut Rng, rep: &mut Report, verbose: bool, for
     }
     if slot {
         rep.count("conversations_with_a_constant_cookie", 1);
+    }
+    if page_rc.iter().any(|r| *r != 0) {
+        rep.count("conversations_with_a_non_zero_result_code_on_some_page", 1);
     }
     rep.case(Some(fnv(format!("{:?}{:?}", pages.iter().map(|p| (p.items.len(), p.cookie.clone())).collect::<Vec<_>>(), setup.chain).as_bytes())));
 }
